@@ -1,4 +1,5 @@
 import AtreeProofs.World.OpsChild
+import AtreeProofs.World.HandleKeep
 /-
   `arrInsert` keeps the global invariant.
 -/
@@ -46,11 +47,13 @@ theorem kslots_arr_insertIdx (T : Nat) {a a' : Arr} {i : Nat} {e : Elem} (h : a'
 theorem kslots_arr_length (T : Nat) (a : Arr) : ((Cont.arr a).kslots T).length = a.toList.length := by
   simp [Cont.kslots]
 
-theorem arrInsert_ok {w : World} {p : SlabID} {i : Nat} {v : WVal} {cx : Ctx} {w' : World} {cx' : Ctx}
-    (H : WorldOk D w cx.ctr) (hhand : HandleOk w p) (hv : WValOk w p (maxInlineArr w.T) v)
-    (h : w.arrInsert p i v cx = .ok (w', cx')) :
-    WorldOk D w' cx'.ctr ∧ cx.ctr ≤ cx'.ctr ∧ InsertedAt w w' p i v ∧ HandleOk w' p ∧ SigFrame w w' p := by
-  obtain ⟨rank0, H0⟩ := H
+/-- `arrInsert` keeps the global invariant; relative to the rank function `rank0` of the world
+    before: the frame `OpFrame` (containers not below `p`, closures, index tables, ALL handles). -/
+theorem arrInsert_okA {rank0 : SlabID → Nat} {w : World} {p : SlabID} {i : Nat} {v : WVal} {cx : Ctx} {w' : World}
+    {cx' : Ctx} (H0 : WorldOkGen D rank0 none (fun _ => False) w cx.ctr) (hhand : HandleOk w p)
+    (hv : WValOk w p (maxInlineArr w.T) v) (h : w.arrInsert p i v cx = .ok (w', cx')) :
+    WorldOk D w' cx'.ctr ∧ cx.ctr ≤ cx'.ctr ∧ InsertedAt w w' p i v ∧ HandleOk w' p ∧ SigFrame w w' p ∧
+      OpFrame rank0 w w' p (Moved (some v) none) := by
   unfold arrInsert at h
   split at h
   · rename_i a hpa
@@ -111,16 +114,40 @@ theorem arrInsert_ok {w : World} {p : SlabID} {i : Nat} {v : WVal} {cx : Ctx} {w
                 rw [cont?_shiftIdx, cont?_setCont_self] at this
                 exact this.get_some : ∃ cp3, w3.cont? p = some cp3 ∧ Cont.SameData (.arr a') cp3)
               obtain ⟨a3, rfl, hl3, hrid3, _⟩ := hsd3.arr
+              have hsome3 : ∀ z, (w3.cont? z).isSome = (w.cont? z).isSome := by
+                intro z
+                rw [F3.sig.isSome, cont?_shiftIdx, cont?_setCont]
+                split
+                · rename_i hpz; subst hpz; rw [hpa]; rfl
+                · rfl
+              have K12 : HKeep (Moved (some (WVal.plain e)) none) w
+                  ((w.setCont p (.arr a')).shiftIdx p (fun j => if j ≥ i then j + 1 else j)) :=
+                hkeep_insert (pc' := .arr a') _ hpa rfl (kslots_arr_insertIdx w.T hl)
+                  (by rw [kslots_arr_length]; exact hi)
+                  (fun x hx => by simp only at hx; rw [hn] at hx; cases hx) rfl (find?_idxOf_shiftIdx _ _ _)
+                  (by simp) (fun z hz => by simp [Ne.symm hz])
+              have K23 : HKeep (Moved (some (WVal.plain e)) none) _ w3 :=
+                HKeep.of_curKept _ (fun q x => (F3.sig.holds_iff q x).mp) F3.cur
               refine ⟨⟨rank0, H3⟩, by omega, ⟨a, a3, e, hpa, hcp3, hi, by rw [hl3, hl],
                 fun e0 he0 => by cases he0; rfl, fun x wr hxw => by cases hxw⟩, ?_,
-                (sigFrame_setCont_shift _ _ _ _).trans (SigFrame.of_sig F3.sig p)⟩
+                (sigFrame_setCont_shift _ _ _ _).trans (SigFrame.of_sig F3.sig p),
+                fun z hz hrk _ => ⟨?_, ?_⟩, fun q x hq => ?_, fun z hzh hzs => ?_⟩
               · exact hhand2.transfer (fun q x => (F3.sig.holds_iff q x).mp) F3.cur
+              · show w3.cont? z = w.cont? z
+                rw [F3.above z hz hrk, cont?_shiftIdx, cont?_setCont_ne _ _ _ _ hz]
+              · show AList.find? w3.hinfo z = _
+                rw [F3.hinfo z hz hrk]; rfl
+              · show AList.find? (w3.idxOf q) x = _
+                rw [F3.idx, find?_idxOf_shiftIdx, if_neg (Ne.symm hq)]; rfl
+              · exact (K12.trans K23).handleOk
+                  (fun x hx _ => by rcases hx with ⟨wr, h⟩ | ⟨o, h, _⟩ <;> cases h) hzh
+                  (by rw [← hsome3]; exact hzs)
             | child x wr =>
               obtain ⟨hlive, hroot, hanc, hwb⟩ := hv
               obtain ⟨c, hx⟩ := Option.isSome_iff_exists.mp hlive
               simp only [World.storableOf] at hst
               obtain ⟨rank', c1, H1, hr', hrk, hc1, hsd1, he, hinl1, he1, he2, hco1, hT1, ha1, hh1, hm1, hctr1,
-                hroot1, hS1⟩ := prep_child H0 hx hroot hanc hwb (Nat.le_refl _) hst
+                hroot1, hS1, hrp, hrle⟩ := prep_child H0 hx hroot hanc hwb (Nat.le_refl _) hst
               have hxp : p ≠ x := by intro h; rw [h] at hrk; omega
               have hpa1 : w1.cont? p = some (.arr a) := by rw [hco1 p hxp]; exact hpa
               have hpok : ArrOk w.T a cx1.ctr := by rw [hctr1]; exact H0.conts p _ hpa
@@ -214,19 +241,66 @@ theorem arrInsert_ok {w : World} {p : SlabID} {i : Nat} {v : WVal} {cx : Ctx} {w
                   obtain ⟨qc, hqc, hm⟩ := hq
                   rw [cont?_setCallbackArr] at hqc
                   exact ⟨qc, hqc, hm⟩) hcur34
-              refine ⟨⟨rank', H4⟩, by have := hctr1; omega, ⟨a, a3, e, hpa, by rw [cont?_setCallbackArr]; exact hcp3, hi,
-                by rw [hl3, hl], fun e0 he0 => (by cases he0), fun x' wr' hxw => ?_⟩, ?_,
-                (((SigFrame.of_sig hS1 p).trans (sigFrame_setCont_shift _ _ _ _)).trans (SigFrame.of_sig F3.sig p)).trans
-                  (sigFrame_cbArr _ _ _ _ _)⟩
-              · cases hxw
-                refine ⟨hepay, ?_, c1, by rw [cont?_setCallbackArr]; exact hx3, by rw [he]⟩
+              have hxhand : HandleOk (w3.setCallbackArr p i (.child x wr)) x := by
                 refine HandleOk.child x ⟨p, none, maxInlineArr w3.T - 2 * wr, wr⟩
                   (by rw [hinfo_setCallbackArr, if_pos rfl]) ?_ hhand4
                 refine ⟨maxInlineArr w3.T, _, Or.inl ⟨a3, i, by rw [cont?_setCallbackArr]; exact hcp3, ?_, he3, rfl,
                   by simp⟩⟩
                 rw [idxOf_setCallbackArr, if_pos ⟨rfl, rfl⟩]
+              have hEx : ∀ z, Moved (some (WVal.child x wr)) none z → z = x := by
+                rintro z (⟨wr', h⟩ | ⟨o, h, _⟩)
+                · cases h; rfl
+                · cases h
+              have hxE : Moved (some (WVal.child x wr)) none x := Or.inl ⟨wr, rfl⟩
+              have hsome4 : ∀ z, ((w3.setCallbackArr p i (.child x wr)).cont? z).isSome = (w.cont? z).isSome := by
+                intro z
+                rw [cont?_setCallbackArr, F3.sig.isSome, cont?_shiftIdx, cont?_setCont, ← hS1.isSome]
+                split
+                · rename_i hpz; subst hpz; rw [hpa1]; rfl
+                · rfl
+              have K01 : HKeep (Moved (some (WVal.child x wr)) none) w w1 := HKeep.of_sig _ hS1 hidx1 hh1
+              have K12 : HKeep (Moved (some (WVal.child x wr)) none) w1
+                  ((w1.setCont p (.arr a')).shiftIdx p (fun j => if j ≥ i then j + 1 else j)) :=
+                hkeep_insert (pc' := .arr a') _ hpa1 rfl (by rw [hT1]; exact kslots_arr_insertIdx w.T hl)
+                  (by rw [kslots_arr_length]; exact hi)
+                  (fun z hz => by simp only at hz; rw [hepay] at hz; cases hz; exact hxE) rfl
+                  (find?_idxOf_shiftIdx _ _ _) (by simp) (fun z hz => by simp [Ne.symm hz])
+              have K23 : HKeep (Moved (some (WVal.child x wr)) none) _ w3 :=
+                HKeep.of_curKept _ (fun q y => (F3.sig.holds_iff q y).mp) F3.cur
+              have K34 : HKeep (Moved (some (WVal.child x wr)) none) w3 (w3.setCallbackArr p i (.child x wr)) :=
+                HKeep.of_curKept _ (fun q y hq => by
+                  obtain ⟨qc, hqc, hm⟩ := hq
+                  rw [cont?_setCallbackArr] at hqc
+                  exact ⟨qc, hqc, hm⟩) hcur34
+              refine ⟨⟨rank', H4⟩, by have := hctr1; omega, ⟨a, a3, e, hpa, by rw [cont?_setCallbackArr]; exact hcp3, hi,
+                by rw [hl3, hl], fun e0 he0 => (by cases he0), fun x' wr' hxw => ?_⟩, ?_,
+                (((SigFrame.of_sig hS1 p).trans (sigFrame_setCont_shift _ _ _ _)).trans (SigFrame.of_sig F3.sig p)).trans
+                  (sigFrame_cbArr _ _ _ _ _),
+                fun z hz hrk hzE => ⟨?_, ?_⟩, fun q y hq => ?_, fun z hzh hzs => ?_⟩
+              · cases hxw
+                exact ⟨hepay, hxhand, c1, by rw [cont?_setCallbackArr]; exact hx3, by rw [he]⟩
               · exact hhand4
+              · have hzx : z ≠ x := fun h => hzE (h ▸ hxE)
+                rw [cont?_setCallbackArr, F3.above z hz (by have := hrle z; omega), cont?_shiftIdx,
+                  cont?_setCont_ne _ _ _ _ hz, hco1 z hzx]
+              · have hzx : x ≠ z := fun h => hzE (h ▸ hxE)
+                rw [hinfo_setCallbackArr, if_neg hzx, F3.hinfo z hz (by have := hrle z; omega)]
+                show AList.find? w1.hinfo z = _
+                rw [hh1]
+              · rw [idxOf_setCallbackArr, if_neg (fun h => hq h.1.symm), F3.idx, find?_idxOf_shiftIdx,
+                  if_neg (Ne.symm hq)]
+                exact hidx1 q y
+              · exact (((K01.trans K12).trans K23).trans K34).handleOk
+                  (fun z hz _ => by rw [hEx z hz]; exact hxhand) hzh (by rw [← hsome4]; exact hzs)
   · cases h
+
+theorem arrInsert_ok {w : World} {p : SlabID} {i : Nat} {v : WVal} {cx : Ctx} {w' : World} {cx' : Ctx}
+    (H : WorldOk D w cx.ctr) (hhand : HandleOk w p) (hv : WValOk w p (maxInlineArr w.T) v)
+    (h : w.arrInsert p i v cx = .ok (w', cx')) :
+    WorldOk D w' cx'.ctr ∧ cx.ctr ≤ cx'.ctr ∧ InsertedAt w w' p i v ∧ HandleOk w' p ∧ SigFrame w w' p := by
+  obtain ⟨rank0, H0⟩ := H
+  obtain ⟨h1, h2, h3, h4, h5, _⟩ := arrInsert_okA H0 hhand hv h
+  exact ⟨h1, h2, h3, h4, h5⟩
 
 end World
 end Atree
